@@ -16,6 +16,8 @@ TRUSTED_BASE = [
     "spec-state resources of harness/steplib stand for the deployment resources (RelaxedMailboxes, the test's hasLock resource): "
     "the network is the spec's bag per node with the ReliableLink mapping macro; that real mailboxes give atomic steps over reliable links is C01/C06",
     "the element a bag read returns is observed on the Go side and handed to the model as the event's argument",
+    "live runs (cmd/c15/live.go, lib/c16_live.locksvc_analyse): real AServer / AClient over the relaxed TCP mailboxes of locksvc_test.go (ports from 127.0.0.1:0) and an IncMap of "
+    "recording hasLock cells, free-running; schedules chosen by the Go scheduler; oracle-only, no coverage claim",
 ]
 ASSUMPTIONS = [
     "labels are atomic steps (C01) and the network is the spec's reliable unordered bag per node (every per-link FIFO order is one of its delivery orders)",
@@ -236,13 +238,39 @@ def analyse(case, res):
     return fails, breaks, coq_steps, sched, nontriv
 
 
+def run_live(ctx, sizes):
+    """deployment smoke runs of locksvc (harness/cmd/c15/live.go, oracle lib/c16_live.locksvc_analyse): real AServer / AClient over
+    the relaxed TCP mailboxes and an IncMap of recording hasLock cells, free-running; one process per run"""
+    import time
+    import c16_live
+    t0 = time.time()
+    per = {"runs": 0, "clean": 0}
+    for n in sizes:
+        live, err = c16_live.run_one("c15", {"id": 0, "live": {"clients": n, "deadline_ms": 10000}}, 10000)
+        a = c16_live.locksvc_analyse(n, live, err)
+        ctx.add_case(json.dumps(["live", n, a["observed"]]), a["nontrivial"])
+        per["runs"] += 1
+        per["clean"] += 0 if a["fails"] else 1
+        for sig, what in a["fails"]:
+            ctx.failures.append({"signature": sig, "what": "live locksvc, %d clients: %s" % (n, what), "case": {"kind": "live", "n": n, "live": {"clients": n}},
+                                 "obs": a["observed"][:1500]})
+        if ctx.replay:
+            print("replay: live locksvc", n, "failures", a["fails"], "hasLock commits", a["observed"][:800])
+    ctx.extra["live_runs"] = per
+    ctx.extra["seconds_live_runs"] = round(time.time() - t0, 1)
+
+
 def run(ctx):
     rng = ctx.rng
     nwalks = 60 if ctx.tier == "quick" else 5000
     if ctx.replay:
         rp = json.load(open(ctx.replay))
+        if rp["case"].get("kind") == "live":
+            run_live(ctx, [rp["case"]["n"]])
+            return
         cases = [rp["case"]]
     else:
+        run_live(ctx, [1, 3, 5] if ctx.tier == "quick" else [1, 2, 3, 4, 5, 8, 12, 20] * 3)
         cases = corpus()
         for i in range(nwalks):
             r = rng.random()
@@ -336,7 +364,12 @@ MANIFEST = {
              "no ill-typed action), ghost_irrelevant. Tie: the real generated locksvc.AServer/AClient bodies run under the real Run loop one attempt at a time over "
              "spec-state resources (harness/steplib); the model runs the same schedule in Coq and every post-state (network bags, hasLock, msg, q, every pc, "
              "the two history lists) and every outcome (commit / disabled / finished / assertion) is compared; an implementation-side oracle checks mutual exclusion, "
-             "grant-only-to-waiting and FIFO directly on the observed Go states."),
+             "grant-only-to-waiting and FIFO directly on the observed Go states. Live (deployment smoke) runs, oracle-only: the same archetypes over the REAL resources "
+             "locksvc_test.go wires up (relaxed TCP mailboxes on ports from 127.0.0.1:0, hasLock as an IncMap of per-client cells that record every committed write), "
+             "free-running with a deadline, 1 / 3 / 5 clients per quick run: every client finishes, commits hasLock TRUE then FALSE exactly once at its own index, and the "
+             "holding intervals (from the position where TRUE was written to the position where FALSE was written, in one global order) are pairwise disjoint. They tie the "
+             "property to the wiring steplib bypasses and establish only that no violation was observed on the schedules the Go scheduler produced; grant-only-to-waiting and "
+             "FIFO are not observable there (the seeded 'grant without queueing' server is caught by the stepped oracle on every run, by a live run only when the race shows)."),
     "level_note": ("Trusted: Coq kernel; the hand-written model (tie = differential testing on 60 quick / 5000 thorough schedules for 1-5 clients, all seven labels and both "
                    "branches of every await reached); the spec-state resources that replace the deployment mailboxes (their atomicity/FIFO is C01/C06). "
                    "The liveness properties of the spec (ProgressOK, NoPriorityInversion) are not claimed."),
